@@ -86,3 +86,68 @@ func dedupe(in []string) []string {
 }
 
 const staleStatement = "generation / resourceVersion / UID read from an object before a client call that refreshes that object in place is not used after the call (the value would describe the previous version)"
+
+// lostUpdateRule applies the lost-update lint to top-level product functions of the given packages:
+// one obligation per function that both refreshes (Reader.Get) and writes (Update/Patch/Status.Update)
+// some object, directly or inside a retry closure.
+func lostUpdateRule(pkgs ...string) func(c *Ctx) {
+	return func(c *Ctx) {
+		p := c.P
+		for _, fn := range p.productFuncs() {
+			if fn.Parent() != nil {
+				continue
+			}
+			in := false
+			for _, pk := range pkgs {
+				if funcPkgPath(fn) == pk {
+					in = true
+				}
+			}
+			if !in {
+				continue
+			}
+			fns := []*ssa.Function{fn}
+			for cl := range retryClosures(fn) {
+				fns = append(fns, cl)
+			}
+			hasRefresh, hasWrite := false, false
+			var first ssa.Instruction
+			for _, f := range fns {
+				for _, b := range f.Blocks {
+					for _, ins := range b.Instrs {
+						ci, ok := ins.(ssa.CallInstruction)
+						if !ok {
+							continue
+						}
+						if isReaderGet(ci.Common()) {
+							hasRefresh = true
+						}
+						if ws, ok := classifyWriter(Call{Instr: ci, Common: ci.Common(), Fn: f}); ok && (ws.Verb == "Update" || ws.Verb == "Status.Update" || ws.Verb == "Patch") {
+							hasWrite = true
+							if first == nil {
+								first = ins
+							}
+						}
+					}
+				}
+			}
+			if !hasRefresh || !hasWrite {
+				continue
+			}
+			o := c.Ob(fn, "lost-update", first, c.rule.Statement)
+			lus := p.lostUpdates(fn)
+			if len(lus) == 0 {
+				o.OK("every value set on an object before it is re-read is set again before the object is written")
+				continue
+			}
+			var bad []string
+			for _, lu := range lus {
+				bad = append(bad, fmt.Sprintf("%s at %s is overwritten by the re-read at %s before the write at %s (on a conflict retry the old server state is written back)",
+					lu.Setter, p.IPos(lu.Set), p.IPos(lu.Refresh), p.IPos(lu.Write)))
+			}
+			o.Fail("%s", strings.Join(dedupe(bad), "; "))
+		}
+	}
+}
+
+const lostUpdateStatement = "a value set on an object (Set*) is not lost to an in-place re-read (Reader.Get) of that object before the object is written: setters that precede a refresh are repeated after it; closures passed to retry helpers are treated as loops"
